@@ -9,9 +9,46 @@
   such a tiling is C09 (`chunks_tile`).
 -/
 import Bita.Proofs.InPlace
+import Bita.Proofs.CloneNoJunk
+import Bita.Proofs.StepOrder
 
 namespace Bita.Props.C03
 open Bita Bita.Spec
+
+/-- **C03 at the level of bytes** (the whole clone, `Clone.run` with `--seed-output`).  The header
+that was opened describes `src`; the prior content of the output is *any* byte string - any
+length, any arrangement, duplication or partial presence of reusable chunks, junk whose chunks
+collide with each other -; seeds, reader and codec are arbitrary.  A clone that reports success
+has left exactly the source (a regular file also has exactly the source's length), or a
+collision of the truncated strong hash with a genuine source chunk is exhibited. -/
+theorem inplace_clone_exact (H : Bytes → Bytes) (hH : ∀ x, (H x).length = 64)
+    (decomp : Nat → Bytes → Nat → Option Bytes) (features : List Nat)
+    (readAt : Nat → Nat → Option Bytes) (readChunks : List (Nat × Nat) → List (Option Bytes))
+    (opts : CloneOpts) (_hso : opts.seedOutput = true) (prior : Bytes) (seeds : List Bytes)
+    (a : Archive) (src : Bytes) (cks : List Bytes)
+    (hinit : tryInit H features readAt = .ok a) (hd : Describes H a src cks)
+    (hitems : ∀ ranges, (readChunks ranges).length = ranges.length) :
+    let r := Clone.run H decomp features readAt readChunks opts prior seeds
+    r.result = .ok →
+      (setLen r.output src.length = src ∧ (opts.blockDev = false → r.output = src)) ∨
+      Collision H a.hashLength cks :=
+  Proofs.clone_sound_nojunk H hH decomp features readAt readChunks opts prior seeds a src cks hinit hd hitems
+
+/-- ... and with an honest reader over archive bytes that store the chunks it does report
+success, for every prior content. -/
+theorem inplace_clone_succeeds (H : Bytes → Bytes) (hH : ∀ x, (H x).length = 64)
+    (decomp : Nat → Bytes → Nat → Option Bytes) (features : List Nat)
+    (archive : Bytes) (opts : CloneOpts) (_hso : opts.seedOutput = true) (prior : Bytes) (seeds : List Bytes)
+    (a : Archive) (src : Bytes) (cks : List Bytes)
+    (hinit : tryInit H features (honestReadAt archive) = .ok a) (hd : Describes H a src cks)
+    (hs : Stored H decomp a archive)
+    (hpin : ∀ pin, opts.headerPin = some pin → pin = a.headerChecksum)
+    (hdev : opts.blockDev = true → src.length ≤ prior.length)
+    (hbv : opts.blockDev = true → opts.verifyOutput = false) :
+    let r := Clone.run H decomp features (honestReadAt archive) (honestReadChunks archive) opts prior seeds
+    (r.result = .ok ∧ setLen r.output src.length = src ∧ (opts.blockDev = false → r.output = src)) ∨
+      Collision H a.hashLength cks :=
+  Proofs.clone_complete_nojunk H hH decomp features archive opts prior seeds a src cks hinit hd hs hpin hdev hbv
 
 variable {κ : Type} [DecidableEq κ]
 
@@ -74,5 +111,13 @@ example :
     (((OutSt.mk (fileOf content3 O) (indexOf content3 N) []).reorderInPlace (indexOf content3 O)).map
       (fun r => resize r.1.file (fileOf content3 N).length)) = some (fileOf content3 N) := by
   decide +kernel
+
+/-- The step order of `clone_archive` that `Clone.run` transcribes (scan the output and reorder in
+place *before* any seed is used, fetch last, flush before resize), read from the source on every
+run: a reordering of the steps in the code breaks this theorem. -/
+theorem clone_steps_as_modelled :
+    Gen.cloneStepOrder = ["try_init", "banner", "pin", "open_output", "device_check", "scan_output", "reorder",
+                          "seed_stdin", "seed_files", "fetch", "flush", "resize", "verify_output"] :=
+  Proofs.clone_step_order_fact
 
 end Bita.Props.C03
